@@ -38,6 +38,7 @@ W int w_sequal(const S2 *a, const S2 *b) { return *a == *b; }
 W void w_add(void *mem, const S2 *a, const S1 *b) { new (mem) S2(*a + *b); }
 W void w_mul(void *mem, const S2 *a, const S1 *b) { new (mem) S3(*a * *b); }
 W void w_scale(void *mem, const S2 *a, double c) { new (mem) S2(*a * c); }
+W void w_lincomb(void *mem, const S1 *a, const S1 *b, double c) { new (mem) S1(linearCombination(std::vector<double>{c, 2.0}, std::vector<S1>{*a, *b})); }
 W void w_applyX1(void *mem, const S2 *s) { new (mem) S3(X<1>{} * *s); }
 W void w_applyX3(void *mem, const S1 *s) { new (mem) S4(X<3>{} * *s); }
 W void w_applyDx1(void *mem, const S2 *s) { new (mem) S1(Dx<1>{} * *s); }
